@@ -63,8 +63,11 @@ class Opts:
         self.stubs = {}            # callee -> fn(ctx, args) -> value
         self.wide_mul = False      # mul as low half of one 2n-bit product term (shared with oracles)
         self.mul_uf = False        # symbolic*symbolic products as MULW<2w>(ext a, ext b), an uninterpreted function
+        self.int_mode = False      # mathematical-integer semantics (IntExec): wrap explicit only where no nsw/nuw
+        self.mul_ovf = "exact"     # 'exact' | 'bits' (multiplier-free sufficient condition for no signed overflow)
         self.div_spec = False      # sdiv/srem by specification with fresh quotient/remainder
         self.div_uf = None         # None | (sdivF, sremF)
+        self.div_uf_all = False    # abstract divisions by constants too (relational obligations)
         self.fma = "fused"         # llvm.fmuladd: 'fused' | 'unfused'
         self.fp_mode = "bits"      # 'bits' | 'real'
         self.machine = False       # optimiser-output semantics: no UB sites, flags ignored, shifts masked? (no)
@@ -115,7 +118,26 @@ def bv2b(x):
     return x == bv(1, 1)
 
 
+class IV:
+    """integer-mode value: mathematical (signed) value of a w-bit LLVM integer as a z3 Int term (i1: 0/1)"""
+    __slots__ = ("t", "w")
+
+    def __init__(self, t, w):
+        self.t, self.w = t, w
+
+    def size(self):
+        return self.w
+
+
+def truth(v):
+    return (v.t != 0) if isinstance(v, IV) else bv2b(v)
+
+
 def ite_val(c, a, b):
+    if isinstance(a, IV):
+        if a.t.eq(b.t):
+            return a
+        return IV(z3.If(c, a.t, b.t), a.w)
     if isinstance(a, Ptr):
         if not isinstance(b, Ptr) or a.base != b.base:
             raise Unsupported("merge of pointers into different objects")
@@ -136,6 +158,10 @@ def ite_val(c, a, b):
 def same_val(a, b):
     if a is b:
         return True
+    if isinstance(a, IV):
+        return isinstance(b, IV) and a.t.eq(b.t)
+    if isinstance(b, IV):
+        return False
     if isinstance(a, Ptr):
         return isinstance(b, Ptr) and a.base == b.base and a.off.eq(b.off)
     if isinstance(a, tuple):
@@ -291,7 +317,7 @@ def encode(mod, fname, args, opts=None):
         env0[name] = a
     incoming = {start: [(None, z3.BoolVal(True), env0)]}  # node -> [(pred block, cond, env)]
 
-    ex = Exec(mod, f, opts, res)
+    ex = (IntExec if opts.int_mode else Exec)(mod, f, opts, res)
     for node in topo:
         inc = incoming.pop(node, [])
         inc = [(p, c, e) for (p, c, e) in inc if not is_false(c)]
@@ -340,7 +366,7 @@ def encode(mod, fname, args, opts=None):
             if len(term.extra) == 1:
                 edges = [(term.extra[0], z3.BoolVal(True))]
             else:
-                c = simp(bv2b(ex.operand(term.args[0], env)))
+                c = simp(truth(ex.operand(term.args[0], env)))
                 edges = [(term.extra[0], c), (term.extra[1], simp(z3.Not(c)))]
                 if term.extra[0] == term.extra[1]:
                     edges = [(term.extra[0], z3.BoolVal(True))]
@@ -472,12 +498,12 @@ class Exec:
             opc = op.v[0]
             if opc == "getelementptr":
                 _, bty, args, flags = op.v
-                vals = [self.operand(a, env) for a in args]
+                vals = [Exec.operand(self, a, env) for a in args]
                 return self.gep(bty, vals, None, False)
             if opc == "bitcast":
-                return self.operand(op.v[1], env)
+                return Exec.operand(self, op.v[1], env)
             if opc == "ptrtoint":
-                p = self.operand(op.v[1], env)
+                p = Exec.operand(self, op.v[1], env)
                 return self.ptrtoint(p, self.ty(op.v[2]).w)
             raise Unsupported("constant expression " + opc)
         raise Unsupported("operand kind " + k)
@@ -684,11 +710,19 @@ class Exec:
         if op == "mul":
             ca, cb = z3.is_bv_value(simp(a)), z3.is_bv_value(simp(b))
             sym2 = not ca and not cb
-            if "nsw" in fl or ((o.wide_mul or o.mul_uf) and sym2):
+            if ("nsw" in fl and not (o.mul_ovf == "bits" and sym2)) or ((o.wide_mul or o.mul_uf) and sym2):
                 wide = self.wide_mul(a, b, True)
                 lo = z3.Extract(w - 1, 0, wide)
             if "nsw" in fl:
-                self.ub("signed-overflow(mul)", ins, z3.SignExt(w, lo) != wide)
+                if o.mul_ovf == "bits" and sym2:
+                    # sufficient condition for "no overflow" without a multiplier: |a| <= 2^p and |b| <= 2^(62-p) for some p.
+                    # The recorded UB condition is its negation: implied by (weaker than) real overflow, so `unsat`
+                    # carries over; a `sat` answer must be re-decided with mul_ovf='exact'.
+                    fits = lambda v, p: z3.SignExt(w - p - 1, z3.Extract(p, 0, v)) == v
+                    self.ub("signed-overflow(mul) [bit-length bound]", ins,
+                            z3.Not(z3.Or([z3.And(fits(a, p), fits(b, w - 2 - p)) for p in range(0, w - 1)])))
+                else:
+                    self.ub("signed-overflow(mul)", ins, z3.SignExt(w, lo) != wide)
             if "nuw" in fl:
                 self.ub("unsigned-overflow(mul)", ins, umul_ovf(a, b))
             if (o.wide_mul or o.mul_uf) and sym2:
@@ -720,7 +754,7 @@ class Exec:
             self.ub("division-by-zero", ins, b == bv(w, 0))
             self.ub("division-overflow(MIN/-1)", ins, z3.And(a == bv(w, 1 << (w - 1)), b == bv(w, (1 << w) - 1)))
             cb = z3.is_bv_value(simp(b))
-            if o.div_uf is not None and not cb:
+            if o.div_uf is not None and (not cb or o.div_uf_all):
                 fq, fr = o.div_uf
                 return fq(a, b) if op == "sdiv" else fr(a, b)
             if o.div_spec and not (z3.is_bv_value(simp(a)) and cb):
@@ -1086,6 +1120,178 @@ def uadd_ovf(a, b):
 def umul_ovf(a, b):
     w = a.size()
     return z3.Extract(2 * w - 1, w, z3.ZeroExt(w, a) * z3.ZeroExt(w, b)) != bv(w, 0)
+
+
+def iwrap(t, w):
+    h = 1 << (w - 1)
+    return ((t + h) % (1 << w)) - h
+
+
+MULI = z3.Function("MULI", z3.IntSort(), z3.IntSort(), z3.IntSort())
+
+
+class IntExec(Exec):
+    """INT semantics (DESIGN.md 3.1): every LLVM integer is its mathematical signed value.  Operations flagged
+    nsw/nuw are performed without wrap-around and contribute their overflow condition as a UB site (the caller proves
+    the UB sites unreachable on the domain, or includes them in the query); unflagged operations wrap explicitly.
+    Supported: add sub mul shl/lshr/ashr by constants, and with 2^k-1 / -2^k masks, sdiv/srem, icmp, casts, select, phi,
+    llvm.expect.  Anything else raises Unsupported."""
+
+    def operand(self, op, env):
+        ty = self.ty(op.ty)
+        if op.kind == "int" and isinstance(ty, IntTy):
+            v = op.v & ((1 << ty.w) - 1)
+            if ty.w > 1 and v >> (ty.w - 1):
+                v -= 1 << ty.w
+            return IV(z3.IntVal(v), ty.w)
+        if op.kind in ("undef", "zero") and isinstance(ty, IntTy):
+            return IV(z3.IntVal(0), ty.w)
+        if op.kind == "reg":
+            return env[op.v]
+        if op.kind in ("global", "cexpr"):
+            return Exec.operand(self, op, env)      # constant pointer into a global
+        raise Unsupported("operand %s in INT mode" % op.kind)
+
+    def rng(self, t, w):
+        return z3.And(t >= -(1 << (w - 1)), t < (1 << (w - 1)))
+
+    def const(self, v):
+        e = simp(v.t)
+        return e.as_long() if z3.is_int_value(e) else None
+
+    def step(self, ins, env):
+        op = ins.op
+        o = self.opts
+        if op in ("add", "sub", "mul", "shl", "lshr", "ashr", "and", "or", "xor", "sdiv", "udiv", "srem", "urem"):
+            a = self.operand(ins.args[0], env)
+            b = self.operand(ins.args[1], env)
+            w = a.w
+            fl = ins.flags
+            ca, cb = self.const(a), self.const(b)
+            if w == 1:
+                x, y = a.t, b.t
+                if op == "xor":
+                    r = z3.If(x == y, z3.IntVal(0), z3.IntVal(1))
+                elif op == "and":
+                    r = z3.If(z3.And(x != 0, y != 0), z3.IntVal(1), z3.IntVal(0))
+                elif op == "or":
+                    r = z3.If(z3.Or(x != 0, y != 0), z3.IntVal(1), z3.IntVal(0))
+                else:
+                    raise Unsupported("i1 %s in INT mode" % op)
+                env[ins.dest] = IV(r, 1)
+                return
+            if op in ("and", "or", "xor") and ca is not None and cb is not None:
+                m = (1 << w) - 1
+                v = {"and": (ca & m) & (cb & m), "or": (ca & m) | (cb & m), "xor": (ca & m) ^ (cb & m)}[op]
+                env[ins.dest] = IV(z3.IntVal(v - (1 << w) if v >> (w - 1) else v), w)
+                return
+            if op in ("or", "xor") and (ca == 0 or cb == 0):
+                env[ins.dest] = b if ca == 0 else a
+                return
+            if op in ("add", "sub", "mul"):
+                if op == "add":
+                    r = a.t + b.t
+                elif op == "sub":
+                    r = a.t - b.t
+                elif ca is None and cb is None and o.mul_uf:
+                    r = MULI(a.t, b.t)
+                else:
+                    r = a.t * b.t
+                if "nsw" in fl:
+                    self.ub("signed-overflow(%s)" % op, ins, z3.Not(self.rng(r, w)))
+                    env[ins.dest] = IV(r, w)
+                else:
+                    env[ins.dest] = IV(iwrap(r, w), w)
+                return
+            if op in ("shl", "lshr", "ashr"):
+                if cb is None or not (0 <= cb < w):
+                    raise Unsupported("symbolic shift count in INT mode")
+                if op == "shl":
+                    r = a.t * (1 << cb)
+                    if "nsw" in fl:
+                        self.ub("signed-overflow(shl)", ins, z3.Not(self.rng(r, w)))
+                        env[ins.dest] = IV(r, w)
+                    else:
+                        env[ins.dest] = IV(iwrap(r, w), w)
+                elif op == "ashr":
+                    env[ins.dest] = IV(a.t / (1 << cb), w)       # Int division by a positive constant floors
+                else:
+                    env[ins.dest] = IV(iwrap((a.t % (1 << w)) / (1 << cb), w), w)
+                return
+            if op == "and":
+                if ca is not None and cb is None:
+                    a, b, ca, cb = b, a, cb, ca
+                if cb is not None and cb >= 0 and (cb & (cb + 1)) == 0:
+                    env[ins.dest] = IV(a.t % (cb + 1), w)
+                    return
+                if cb is not None and cb < 0 and ((-cb) & (-cb - 1)) == 0:
+                    env[ins.dest] = IV(a.t - (a.t % (-cb)), w)
+                    return
+                raise Unsupported("general bitwise and in INT mode")
+            if op in ("sdiv", "srem"):
+                self.ub("division-by-zero", ins, b.t == 0)
+                self.ub("division-overflow(MIN/-1)", ins, z3.And(a.t == -(1 << (w - 1)), b.t == -1))
+                absb = z3.If(b.t < 0, -b.t, b.t)
+                absa = z3.If(a.t < 0, -a.t, a.t)
+                qm = absa / absb
+                q = z3.If((a.t < 0) != (b.t < 0), -qm, qm)
+                env[ins.dest] = IV(q if op == "sdiv" else a.t - q * b.t, w)
+                return
+            raise Unsupported("%s in INT mode" % op)
+        if op == "icmp":
+            pred, ty = ins.extra
+            a = self.operand(ins.args[0], env)
+            b = self.operand(ins.args[1], env)
+            w = a.w
+            x, y = a.t, b.t
+            if pred[0] == "u":
+                x, y = x % (1 << w), y % (1 << w)
+            r = {"eq": x == y, "ne": x != y, "slt": x < y, "sle": x <= y, "sgt": x > y, "sge": x >= y,
+                 "ult": x < y, "ule": x <= y, "ugt": x > y, "uge": x >= y}[pred]
+            env[ins.dest] = IV(z3.If(simp(r), z3.IntVal(1), z3.IntVal(0)), 1)
+            return
+        if op == "select":
+            c = self.operand(ins.args[0], env)
+            env[ins.dest] = ite_val(simp(c.t != 0), self.operand(ins.args[1], env), self.operand(ins.args[2], env))
+            return
+        if op in ("zext", "sext", "trunc"):
+            a = self.operand(ins.args[0], env)
+            w = self.ty(ins.ty).w
+            if op == "zext":
+                env[ins.dest] = IV(a.t if a.w == 1 else a.t % (1 << a.w), w)
+            elif op == "sext":
+                env[ins.dest] = IV(-a.t if a.w == 1 else a.t, w)
+            else:
+                env[ins.dest] = IV(a.t % 2 if w == 1 else iwrap(a.t, w), w)
+            return
+        if op == "freeze":
+            env[ins.dest] = self.operand(ins.args[0], env)
+            return
+        if op == "load":
+            p = self.operand(ins.args[0], env)
+            v = simp(Exec.load(self, ins, p, ins.ty))
+            if not z3.is_bv_value(v):
+                raise Unsupported("load of a non-constant in INT mode")
+            w = v.size()
+            x = v.as_long()
+            env[ins.dest] = IV(z3.IntVal(x - (1 << w) if (w > 1 and x >> (w - 1)) else x), w)
+            return
+        if op == "call":
+            name = ins.extra
+            if name.startswith("llvm.expect"):
+                env[ins.dest] = self.operand(ins.args[0], env)
+                return
+            if name.startswith("llvm.lifetime") or name.startswith("llvm.dbg") or name.startswith("llvm.assume"):
+                return
+            if name in o.stubs:
+                args = [self.operand(a, env) for a in ins.args]
+                r = o.stubs[name](Ctx(self.res, o, self.pc), args)
+                self.res.calls.append((name, args, r))
+                if ins.dest:
+                    env[ins.dest] = r
+                return
+            raise Unsupported("call to %s in INT mode" % name)
+        raise Unsupported("instruction %s in INT mode" % op)
 
 
 def fcmp(pred, a, b):
